@@ -1939,7 +1939,7 @@ pub fn f_recreate(seed: u64) -> Plan {
 }
 
 // ------------------------------------------------------------------------------------------------
-// F-conn: one client connection. Pull, Acknowledge, GetSubscription and Publish travel over one real HTTP/2
+// F-conn: one client connection. Pull, StreamingPull, Acknowledge, GetSubscription and Publish travel over one real HTTP/2
 // connection (hyper + h2 on an in-memory pipe) to the real tonic transport server (plan tag "conn"):
 // 8-90 Pulls are parked on the connection, then ordinary and malformed requests are sent on the
 // same connection; they must be answered at once, and a publish must still reach the parked Pulls.
@@ -1966,8 +1966,15 @@ pub fn f_conn(seed: u64) -> Plan {
     });
     let n = *rng.pick(&[8u64, 20, 31, 32, 33, 40, 64, 90]);
     let mut scripts = Vec::new();
+    // some of the parked calls are StreamingPull streams (they stay for the whole run)
+    let stream_share = *rng.pick(&[0u64, 0, 300, 1000]);
     for i in 0..n {
-        scripts.push(vec![Step::after(rng.below(3) * rng.below(2_000), Op::PullBg { slot: 1 + i as u32, sub: parked_on.clone(), max: *rng.pick(&[1i32, 10]) })]);
+        let op = if rng.chance(stream_share) {
+            Op::StreamOpen { slot: 1 + i as u32, sub: parked_on.clone(), max_msgs: *rng.pick(&[0i64, 1]), max_bytes: 0, policy: if rng.chance(500) { StreamPolicy::AckAll } else { StreamPolicy::Hold }, window: 0, stall_after: 0, stall_us: 0 }
+        } else {
+            Op::PullBg { slot: 1 + i as u32, sub: parked_on.clone(), max: *rng.pick(&[1i32, 10]) }
+        };
+        scripts.push(vec![Step::after(rng.below(3) * rng.below(2_000), op)]);
     }
     plan.phases.push(Phase { scripts, advance_us: rng.below(3) * rng.below(2_000_000), audit: false });
     let mut scripts = Vec::new();
